@@ -12,7 +12,8 @@ for n in names:
     for c in checks:
         if c not in claimed:
             print(n,c,'check not built yet'); continue
-        p=subprocess.run(['/verif/tools/seedtest.sh',d+'/patch.diff',c,'quick'],capture_output=True,text=True)
+        patch=d+'/patch.rebased.diff' if os.path.exists(d+'/patch.rebased.diff') else d+'/patch.diff'
+        p=subprocess.run(['/verif/tools/seedtest.sh',patch,c,'quick'],capture_output=True,text=True)
         out=p.stdout+p.stderr
         viol=re.findall(r'^VIOLATION property=(\S+) .*?sig=(\S+)',out,re.M)
         applied='PATCH DOES NOT APPLY' not in out
